@@ -44,11 +44,15 @@ Qed.
 (* primitives *)
 
 Ltac sf :=
-  repeat first
-    [ apply safe_ret | apply safe_fail_format | apply safe_fail_eof | apply safe_read_exact
-    | apply safe_bind; [| intros ?]
-    | match goal with |- safe _ (if ?c then _ else _) => destruct c end
-    | match goal with |- safe _ (match ?o with Some _ => _ | None => _ end) => destruct o end ].
+  repeat match goal with
+  | |- safe _ (ret _) => apply safe_ret
+  | |- safe _ fail_format => apply safe_fail_format
+  | |- safe _ fail_eof => apply safe_fail_eof
+  | |- safe _ (read_exact _) => apply safe_read_exact
+  | |- safe _ (bind _ _) => apply safe_bind; [| intros ?]
+  | |- safe _ (if ?c then _ else _) => destruct c
+  | |- safe _ (match ?o with Some _ => _ | None => _ end) => destruct o
+  end.
 
 Lemma safe_read_be c w : safe c (read_be w).
 Proof. unfold read_be. sf. Qed.
@@ -216,18 +220,12 @@ Proof.
           | apply safe_read_opt_i64 | apply safe_read_opt_bytes; exact Hc | apply safe_read_map; exact Hm ].
 Qed.
 
-Definition kind_c (k : kind) : N :=
-  match k with
-  | KMap | KState => CHUNK + MAP_PREALLOC * ENTRY
-  | _ => CHUNK
-  end.
-
 Lemma safe_rmap {A B} c (f : A -> B) (r : reader A) : safe c r -> safe c (rmap f r).
 Proof. intros H. unfold rmap. apply safe_bind; [exact H|]. intros a. apply safe_ret. Qed.
 
-Theorem safe_decode k : safe (kind_c k) (decode rv hv k).
+Theorem safe_decode k : safe (kind_const k) (decode rv hv k).
 Proof.
-  destruct k; cbn [decode kind_c]; apply safe_rmap;
+  destruct k; cbn [decode kind_const]; apply safe_rmap;
     unfold read_u8, read_u32, read_u64, read_rsync, read_https, read_uuid, read_hash;
     first [ apply safe_read_be | apply safe_read_i64 | apply safe_read_opt_i64
           | apply safe_read_uri; lia | apply safe_read_opt_https; lia
@@ -241,9 +239,9 @@ Qed.
 
 (* the statement without the bookkeeping of [safe] *)
 Theorem decode_total_bounded k b :
-  lenN b + kind_c k <= ISIZE_MAX ->
+  lenN b + kind_const k <= ISIZE_MAX ->
   no_panic (run (decode rv hv k) b) /\
-  Forall (fun n => n <= lenN b + kind_c k) (trace (decode rv hv k) b) /\
+  Forall (fun n => n <= lenN b + kind_const k) (trace (decode rv hv k) b) /\
   (forall v b', run (decode rv hv k) b = Ok (v, b') -> lenN b' <= lenN b).
 Proof. intros H. apply (safe_decode k (lenN b) b); [lia | exact H]. Qed.
 
